@@ -4,6 +4,7 @@ package txutil
 
 import (
 	abci "github.com/cometbft/cometbft/abci/types"
+	"github.com/cosmos/cosmos-sdk/client"
 	codectypes "github.com/cosmos/cosmos-sdk/codec/types"
 	cryptotypes "github.com/cosmos/cosmos-sdk/crypto/types"
 	sdk "github.com/cosmos/cosmos-sdk/types"
@@ -13,6 +14,40 @@ import (
 
 	. "verifharness/hx"
 )
+
+// SignTxWith signs msgs with priv for explicit signer data (used for gentxs: no chain state exists yet).
+func SignTxWith(txCfg client.TxConfig, priv cryptotypes.PrivKey, chainID string, accNum, seq uint64, gas uint64, fee sdk.Coins, ext *codectypes.Any, msgs ...sdk.Msg) (sdk.Tx, error) {
+	b := txCfg.NewTxBuilder()
+	if ext != nil {
+		if eb, ok := b.(authtx.ExtensionOptionsTxBuilder); ok {
+			eb.SetExtensionOptions(ext)
+		}
+	}
+	if err := b.SetMsgs(msgs...); err != nil {
+		return nil, err
+	}
+	signMode := txCfg.SignModeHandler().DefaultMode()
+	sig := signing.SignatureV2{PubKey: priv.PubKey(), Data: &signing.SingleSignatureData{SignMode: signMode}, Sequence: seq}
+	if err := b.SetSignatures(sig); err != nil {
+		return nil, err
+	}
+	b.SetFeeAmount(fee)
+	b.SetGasLimit(gas)
+	sd := authsign.SignerData{Address: sdk.AccAddress(priv.PubKey().Address()).String(), ChainID: chainID, AccountNumber: accNum, Sequence: seq, PubKey: priv.PubKey()}
+	signBytes, err := txCfg.SignModeHandler().GetSignBytes(signMode, sd, b.GetTx())
+	if err != nil {
+		return nil, err
+	}
+	sbz, err := priv.Sign(signBytes)
+	if err != nil {
+		return nil, err
+	}
+	sig.Data.(*signing.SingleSignatureData).Signature = sbz
+	if err := b.SetSignatures(sig); err != nil {
+		return nil, err
+	}
+	return b.GetTx(), nil
+}
 
 // SignTx signs msgs with priv (account number / sequence of `as` read from block state; `as` is the
 // address whose account is used, normally the key's own address).
